@@ -38,6 +38,9 @@ def shards(tier):
         for a in [x for x in alignsweep.strings(sc["triple4_alpha"], 4, 4) if alignsweep.canonical(x) == x]:
             for prefix in (True, False):
                 out.append(dict(kind="triples4", first=a, prefix=prefix, tier=tier))
+    for a in [x for x in alignsweep.strings("ACG", 3, 3) if alignsweep.canonical(x) == x]:
+        for prefix in (True, False):
+            out.append(dict(kind="mixed", first=a, prefix=prefix, tier=tier))
     # operation sequences of depth two on one index object: every ordered pair of reads (N reads included) consecutively
     for seqs in (("AAA", "AAC"), ("ACG", "AACA"), ("ACGA", "ACGT", "AGGT")):
         for prefix in (True, False):
@@ -248,6 +251,9 @@ def run_shard(d):
     if d["kind"] == "pairs":
         pool = [a for L in sc["lens"] for a in alignsweep.strings(sc["alpha"], L, L)]
         sets = [(first, b) for b in pool if b != first]
+    elif d["kind"] == "mixed":
+        pool = list(alignsweep.strings("AC" if d["tier"] != "thorough" else "ACG", 3, 3))
+        sets = [(first, b, c) for b in pool for c in pool if len({first, b, c}) == 3]
     elif d["kind"] == "triples4":
         pool = list(alignsweep.strings(sc["triple4_alpha"], 4, 4))
         sets = [(first, b, c) for b in pool for c in pool if len({first, b, c}) == 3]
@@ -255,13 +261,18 @@ def run_shard(d):
         pool = [a for L in sc["triple_len"] for a in alignsweep.strings(sc["triple_second"], L, L)]
         pool = [a for a in pool if len(a) == len(first)]
         sets = [(first, b, c) for b in pool for c in pool if len({first, b, c}) == 3]
+    if d["kind"] == "mixed":
+        # per-adapter tolerances (';e=' inline or in an adapter file): every non-uniform vector over three rates
+        vals = (0.0, 0.34, 0.67)
+        rates = [v for v in itertools.product(vals, repeat=3) if len(set(v)) > 1]
     for seqs in sets:
         for rate in rates:
-            ks = [int(rate * len(s)) for s in seqs]
+            rvec = rate if isinstance(rate, tuple) else (rate,) * len(seqs)
+            ks = [int(rv * len(s)) for rv, s in zip(rvec, seqs)]
             if max(ks) > 3:
                 continue
             for indels in (True, False):
-                ads = [Cls(s, max_errors=rate, indels=indels, name=f"a{i}") for i, s in enumerate(seqs)]
+                ads = [Cls(s, max_errors=rv, indels=indels, name=f"a{i}") for i, (s, rv) in enumerate(zip(seqs, rvec))]
                 try:
                     idx = Idx(ads)
                 except ValueError:
@@ -271,7 +282,8 @@ def run_shard(d):
                 ms = [len(s) for s in seqs]
                 equal_len = len(set(ms)) == 1
                 multi = MultipleAdapters(ads) if (equal_len and not indels) else None
-                cfg = dict(adapters=list(seqs), rate=rate, indels=indels, end="5'" if prefix else "3'", allowed_errors=ks)
+                cfg = dict(adapters=list(seqs), rate=rate if not isinstance(rate, tuple) else None, rates=list(rvec), indels=indels,
+                           end="5'" if prefix else "3'", allowed_errors=ks)
                 byname = {f"a{i}": i for i in range(len(seqs))}
                 match_to = idx.match_to
                 nad = len(seqs)
@@ -322,8 +334,12 @@ def run_shard(d):
                                            reported=None if mt is None else [mt.adapter.sequence, mt.rstart, mt.rstop, mt.errors])))
                     if multi is not None and nfree:
                         m = ms[0]
-                        ds = sorted((tabs[i][base + m] if m <= n else 127) for i in range(len(seqs)))
-                        if ds[0] < ds[1]:
+                        dall = [(tabs[i][base + m] if m <= n else 127) for i in range(len(seqs))]
+                        ds = sorted(dall)
+                        # with per-adapter tolerances the nearest adapter may be out of ITS tolerance while two farther ones tie
+                        # within theirs: agreement is demanded only if the nearest adapters are not tied under either reading
+                        cand = sorted(dall[i] for i in range(len(seqs)) if dall[i] <= ks[i])
+                        if ds[0] < ds[1] and (len(cand) < 2 or cand[0] < cand[1]):
                             res["clause3"] += 1
                             ot = multi.match_to(r)
                             a = None if mt is None else (mt.adapter.sequence, mt.rstart, mt.rstop, mt.errors)
@@ -355,7 +371,7 @@ def run(tier):
                      "distance tables from the C reference (cross-checked against the Python twin in C01)"]
     return R.finish(tot.get("evals", 0), tot.get("nontrivial", 0),
                     "adapter sets = all ordered pairs (first canonical) of strings over {A,C,G} of the stated lengths + all ordered "
-                    "triples of equal-length strings; x 5-6 error rates (allowed errors 0-3, differing between adapters of different "
+                    "triples of equal-length strings (+ triples with PER-ADAPTER tolerances: every non-uniform vector over three rates); x 5-6 error rates (allowed errors 0-3, differing between adapters of different "
                     "length) x indels on/off x anchored 5'/3' x ALL reads over ACGT up to the stated length + reads with one N, each also in lower and "
                     "mixed case; + three adapters of lengths 47-49 with ABSOLUTE error counts (where k/L*L truncates to k-1) against every "
                     "0..k+1-substitution neighbour pattern listed in the source; + every ORDERED PAIR of ~700 reads (plain, one N, lower case) "
@@ -373,13 +389,16 @@ def replay(path):
     c = v["case"]
     prefix = c["end"] == "5'"
     Cls = PrefixAdapter if prefix else SuffixAdapter
-    ads = [Cls(s, max_errors=c.get("max_errors", c["rate"]), indels=c["indels"], name=f"a{i}") for i, s in enumerate(c["adapters"])]
+    rv = c.get("rates") or [c.get("max_errors", c.get("rate"))] * len(c["adapters"])
+    if c.get("max_errors") is not None:
+        rv = [c["max_errors"]] * len(c["adapters"])
+    ads = [Cls(s, max_errors=rv[i], indels=c["indels"], name=f"a{i}") for i, s in enumerate(c["adapters"])]
     idx = (IndexedPrefixAdapters if prefix else IndexedSuffixAdapters)(ads)
     if v["sig"].split(":")[1] == "history":
         g = lambda m: None if m is None else (m.adapter.name, m.rstart, m.rstop, m.errors)
         alone = g(idx.match_to(c["read"]))
         idx2 = (IndexedPrefixAdapters if prefix else IndexedSuffixAdapters)(
-            [Cls(s, max_errors=c["rate"], indels=c["indels"], name=f"a{i}") for i, s in enumerate(c["adapters"])])
+            [Cls(s, max_errors=rv[i], indels=c["indels"], name=f"a{i}") for i, s in enumerate(c["adapters"])])
         if c.get("previous_read") is not None:
             idx2.match_to(c["previous_read"])
         after = g(idx2.match_to(c["read"]))
